@@ -26,6 +26,14 @@
 (* caller; phase two: XA COMMIT(id) | XA ROLLBACK(id) from the holding     *)
 (* connection or a fresh one.                                              *)
 (*                                                                         *)
+(* Phase two does not wait for phase one (EarlyP2): the coordinator may     *)
+(* give the global transaction up (time-out, another participant failed)   *)
+(* and ask for the rollback of a branch it has registered while the        *)
+(* application is still between register and return (P2Early).  The        *)
+(* resource manager must then leave the connection the application is      *)
+(* working on alone; whatever it answers must be true, and a branch it     *)
+(* reported as rolled back stays rolled back (RolledBackStays).            *)
+(*                                                                         *)
 (* With Strict = TRUE the client takes only steps the protocol allows      *)
 (* (design check: the invariants hold).  With Strict = FALSE the client    *)
 (* may send anything at any time; the environment answers as the database  *)
@@ -44,6 +52,7 @@ CONSTANTS
   MaxFaults,   \* faults the database may inject
   MaxDml,      \* business statements per branch
   MaxP2,       \* phase-two deliveries
+  EarlyP2,     \* BOOLEAN: the coordinator may ask for the rollback while phase one is still running (P2Early)
   MaxCmds      \* bound on the command history (design check only)
 
 VARIABLES
@@ -58,14 +67,14 @@ VARIABLES
   ret,      \* "none" | "nil" | "err" | "panic"
   retdb,    \* db at the moment the call returned
   cmds,     \* history: what reached the database, with the situation it arrived in
-  cur,      \* phase-two delivery in progress: [kind, fault] or NoP2
-  p2,       \* finished deliveries: [kind, fault, status, after]
+  cur,      \* phase-two delivery in progress: [kind, fault, early] or NoP2
+  p2,       \* finished deliveries: [kind, fault, early, status, after]
   nfaults,
   env       \* scenario history (hidden by VIEW)
 
 vars == <<mode, detach, reg, db, own, failed, wrote, leak, ret, retdb, cmds, cur, p2, nfaults, env>>
 
-NoP2 == [kind |-> "none", fault |-> FALSE]
+NoP2 == [kind |-> "none", fault |-> FALSE, early |-> FALSE]
 States == {"none", "active", "idle", "prepared", "committed", "rolledback"}
 Live == {"active", "idle", "prepared"}
 Open == {"active", "idle"}
@@ -78,6 +87,9 @@ Init ==
   /\ cmds = <<>> /\ cur = NoP2 /\ p2 = <<>> /\ nfaults = 0 /\ env = <<>>
 
 Phase == IF ret = "none" THEN 1 ELSE 2
+
+\* the resource manager has told the coordinator that the branch is rolled back
+AnsweredRollbacked == \E i \in 1..Len(p2) : p2[i].status = "rollbacked"
 
 -----------------------------------------------------------------------------
 (* The database (environment) *)
@@ -113,13 +125,17 @@ ClientMay(cmd, id, st) ==
   /\ id = "good"
   /\ IF Phase = 1
        THEN /\ LegalCmd(cmd, st) /\ cmd # "commit"
+            \* a branch that was reported as rolled back is finished: the application's connection sends nothing
+            \* more for it (the code never gets here: during phase one BranchRollback answers 'retryable', see P2Early)
+            /\ ~AnsweredRollbacked
             /\ cmd = "start" => (reg = "yes" /\ ~failed)
             /\ cmd \in {"dml", "prepare"} => ~failed
        ELSE /\ cur # NoP2 /\ cmd = cur.kind
             /\ LegalCmd(cmd, st) \/ st \in {"none", "committed", "rolledback"}
 
 Rec(cmd, id, st, res) ==
-  [cmd |-> cmd, id |-> id, st |-> st, res |-> res, ph |-> Phase, reg |-> reg, failed |-> failed, req |-> cur.kind]
+  [cmd |-> cmd, id |-> id, st |-> st, res |-> res, ph |-> Phase, reg |-> reg, failed |-> failed, req |-> cur.kind,
+   rb |-> AnsweredRollbacked]
 
 \* an XA command reaches the database on connection c and is answered
 Xa(cmd, id, c, res) ==
@@ -216,8 +232,25 @@ P2Req(kind) ==
   /\ kind \in {"commit", "rollback"}
   /\ kind = "commit" => ret = "nil"
   /\ \A i \in 1..Len(p2) : p2[i].kind = kind
-  /\ cur' = [kind |-> kind, fault |-> FALSE]
+  /\ cur' = [kind |-> kind, fault |-> FALSE, early |-> FALSE]
   /\ env' = Append(env, [op |-> "p2", kind |-> kind])
+  /\ UNCHANGED <<mode, detach, reg, db, own, failed, wrote, leak, ret, retdb, cmds, p2, nfaults>>
+
+\* early phase two: the coordinator does not wait for the application.  It has granted the registration, so it
+\* knows the branch; when it gives the global transaction up (time-out, failure of another participant) it sends
+\* BranchRollback although the call has not returned - before or while XA START, a statement, XA END or
+\* XA PREPARE runs on the branch's connection (which is visible to phase two from DBResource.Hold in
+\* XAConn.keepIfNecessary on, i.e. before XA START is sent).  Only a rollback can come early (the transaction
+\* manager commits what returned nil), and the decision does not change afterwards.
+\* Code: XAResourceManager.BranchRollback -> XAConn.phaseOneRunning(): while the application works on the branch
+\* the connection is not touched and the answer is PhaseTwo_RollbackFailed_Retryable; the coordinator retries
+\* (P2Req) until the branch is resolved.
+P2Early ==
+  /\ EarlyP2
+  /\ ret = "none" /\ cur = NoP2 /\ reg = "yes" /\ Len(p2) < MaxP2
+  /\ \A i \in 1..Len(p2) : p2[i].kind = "rollback"
+  /\ cur' = [kind |-> "rollback", fault |-> FALSE, early |-> TRUE]
+  /\ env' = Append(env, [op |-> "p2early", at |-> Len(cmds)])
   /\ UNCHANGED <<mode, detach, reg, db, own, failed, wrote, leak, ret, retdb, cmds, p2, nfaults>>
 
 Truthful(status) ==
@@ -229,9 +262,11 @@ Resolved(kind) ==
 
 P2Rep(status) ==
   /\ cur # NoP2 /\ status \in {"committed", "rollbacked", "failed", "noreply"}
+  \* a delivery that arrived during phase one may be answered 'try again' (any status that is true); every
+  \* other delivery that met no fault resolves the branch
   /\ Strict => /\ Truthful(status)
-               /\ ~cur.fault => Resolved(cur.kind)
-  /\ p2' = Append(p2, [kind |-> cur.kind, fault |-> cur.fault, status |-> status, after |-> db["good"]])
+               /\ (~cur.fault /\ ~cur.early) => Resolved(cur.kind)
+  /\ p2' = Append(p2, [kind |-> cur.kind, fault |-> cur.fault, early |-> cur.early, status |-> status, after |-> db["good"]])
   /\ cur' = NoP2
   /\ UNCHANGED <<mode, detach, reg, db, own, failed, wrote, leak, ret, retdb, cmds, nfaults, env>>
 
@@ -246,6 +281,7 @@ Next ==
   \/ \E r \in RegReplies : RegRep(r)
   \/ \E v \in {"nil", "err", "panic"} : Return(v)
   \/ \E k \in {"commit", "rollback"} : P2Req(k)
+  \/ P2Early
   \/ \E s \in {"committed", "rollbacked", "failed", "noreply"} : P2Rep(s)
 
 Spec == Init /\ [][Next]_vars
@@ -309,7 +345,17 @@ ExactlyOneOutcome ==
     LET d == p2[i] IN
     /\ d.status = "committed"  => d.after = "committed"
     /\ d.status = "rollbacked" => d.after \in {"rolledback", "none"}
-    /\ ~d.fault => IF d.kind = "commit" THEN d.after = "committed" ELSE d.after \in {"rolledback", "none"}
+    /\ (~d.fault /\ ~d.early) => IF d.kind = "commit" THEN d.after = "committed" ELSE d.after \in {"rolledback", "none"}
+
+\* what the coordinator was told stays true: once the reply 'rollbacked' has been given the branch is never
+\* active / idle / prepared again, and the database accepts no further command of the application for it (a
+\* rollback that overtakes phase one - P2Early - must not be answered 'rollbacked' by a resource manager whose
+\* application then goes on with XA START .. XA PREPARE: the branch would stay prepared for ever while the
+\* coordinator has forgotten it)
+AppCmds == {"start", "dml", "end", "prepare"}
+RolledBackStays ==
+  /\ AnsweredRollbacked => db["good"] \notin Live
+  /\ \A j \in CmdIdx : cmds[j].rb => ~(cmds[j].id = "good" /\ cmds[j].res = "ok" /\ cmds[j].cmd \in AppCmds)
 
 \* nothing is durable before phase two commits, and nothing of the branch is durable outside it
 NothingEarly == /\ ~leak
